@@ -107,6 +107,7 @@ func runCheck(id, tier string) int {
 		fmt.Printf("INCONCLUSIVE property=%s reason=cannot load /repo + harness: %v\n", id, err)
 		return 2
 	}
+	w.StopOnViolation = true
 	// every function named as encoded must exist in the current tree
 	for _, f := range spec.Encoded {
 		if !w.funcExists(f) {
@@ -159,7 +160,7 @@ func runCheck(id, tier string) int {
 			break
 		}
 		for _, r := range hs.Reach {
-			if hr.Reached[r] == 0 {
+			if hr.Reached[r] == 0 && !hr.Stopped {
 				inconclusive = append(inconclusive, fmt.Sprintf("%s: vacuous: reachability witness %q never reached", hr.Name, r))
 			}
 		}
@@ -183,7 +184,7 @@ func runCheck(id, tier string) int {
 			}
 			for kid, cnt := range a.Known {
 				kf, listed := kfs[kid]
-				if listed && kf.Status == "open" && kf.Property == id {
+				if listed && kf.Status == "open" && strings.Contains(","+kf.Property+",", ","+id+",") {
 					knownHit[kid] = kf.What
 					_ = cnt
 					continue
@@ -199,7 +200,7 @@ func runCheck(id, tier string) int {
 				reproduced := false
 				var lastDir string
 				for i, cx := range a.Cex {
-					if i >= 2 {
+					if i >= 5 {
 						break
 					}
 					dir, ok, out := w.Replay(id, hs, n, cx, i)
